@@ -359,6 +359,9 @@ func routingSweeps(r rm.Router, tier string, lite bool) []sweep {
 		// (D1) Consumes / Produces declared on the WebService and inherited by routes without their own
 		out = append(out, sweep{"D1", r, defaultsTables(), crossReqs([]h.Req{{Segs: []string{"d", "1"}}}, []string{"GET", "POST"}, hu.Combos(), false)})
 	}
+	if !lite {
+		out = append(out, wideSweep(r))
+	}
 	if only := os.Getenv("VERIF_ONLY_SWEEP"); only != "" {
 		var f []sweep
 		for _, sp := range out {
@@ -369,6 +372,51 @@ func routingSweeps(r rm.Router, tier string, lite bool) []sweep {
 		return f
 	}
 	return out
+}
+
+// wideSweep (W1): one service /r holding 32 routes - the 16 four-segment templates in which each
+// position is either its literal (a, b, c, d) or a variable, each declared twice (GET producing
+// JSON and GET producing XML) - registered in 512 different orders (position i of the order holds
+// route (i*stride+offset) mod 32, every odd stride x every offset). Up to 32 candidate routes match
+// one request, far beyond the sizes at which sorting routines switch algorithm.
+func wideSweep(r rm.Router) sweep {
+	lits := []string{"a", "b", "c", "d"}
+	var decls []rm.RouteDecl
+	for mask := 0; mask < 16; mask++ {
+		sub := ""
+		for i, l := range lits {
+			if mask&(1<<i) != 0 {
+				sub += "/" + l
+			} else {
+				sub += fmt.Sprintf("/{p%d}", i)
+			}
+		}
+		decls = append(decls, rm.RouteDecl{Method: "GET", Sub: sub, Produces: []string{rs.JSON}}, rm.RouteDecl{Method: "GET", Sub: sub, Produces: []string{rs.XML}})
+	}
+	n := len(decls)
+	gen := tableGen{16 * n, func(k int) rm.Table {
+		stride, off := 2*(k/n)+1, k%n
+		routes := make([]rm.RouteDecl, n)
+		for i := range routes {
+			routes[i] = decls[(i*stride+off)%n]
+			routes[i].ID = i
+		}
+		return rm.Table{Svcs: []rm.SvcDecl{{Root: "/r", Routes: routes}}}
+	}}
+	var paths []h.Req
+	for mask := 0; mask < 16; mask++ {
+		segs := []string{"r"}
+		for i, l := range lits {
+			if mask&(1<<i) != 0 {
+				segs = append(segs, l)
+			} else {
+				segs = append(segs, "z")
+			}
+		}
+		paths = append(paths, h.Req{Segs: segs})
+	}
+	hcs := []rs.HeaderCombo{{}, {Accept: "*/*"}, {Accept: rs.JSON}, {Accept: rs.XML}, {Accept: "text/plain"}}
+	return sweep{"W1", r, gen, crossReqs(paths, []string{"GET", "POST"}, hcs, false)}
 }
 
 // defaultsTables: one service /d with service-level Consumes/Produces defaults and 1-2 routes that
